@@ -241,3 +241,6 @@ func firstShard() bool {
 	s := os.Getenv("VERIF_SHARD_INDEX")
 	return s == "" || s == "0"
 }
+
+func optOut(b *bytes.Buffer) bcl.Option { return bcl.OptOutput(b) }
+func optLog(b *bytes.Buffer) bcl.Option { return bcl.OptLogger(b) }
